@@ -13,12 +13,34 @@ def run(cmd, timeout=1800):
 res = {"worktree": wt, "variant": var}
 run("git checkout -- .")
 demo = open(os.path.join(out, "demo_test.go")).read()
+ddir = "/nonexistent-dir-to-remove"
 pkg = re.search(r"^package\s+(\w+)", demo, re.M).group(1)
-ddir = os.path.join(wt, pkg)
-shutil.rmtree(ddir, ignore_errors=True)
-os.makedirs(ddir)
-shutil.copy(os.path.join(out, "demo_test.go"), os.path.join(ddir, "demo_test.go"))
-rc, o = run("go test -mod=mod -vet=off -count=1 ./%s/" % pkg)
+runtxt = open(os.path.join(out, "RUN.txt")).read() if os.path.exists(os.path.join(out, "RUN.txt")) else ""
+dest = None
+for m in re.finditer(r"(?:^|[\s`'\"=])((?:/tmp/mut/\w+/)?[\w./-]+_test\.go)", runtxt):
+    cand = m.group(1)
+    if "_out/" in cand:
+        continue
+    cand = cand.replace(wt + "/", "")
+    if "/" in cand:
+        dest = cand
+        break
+tests = re.findall(r"^func (Test\w+)\(", demo, re.M)
+runflag = "-run '^(%s)$'" % "|".join(tests) if tests else ""
+created_dir = None
+if dest and os.path.isdir(os.path.join(wt, os.path.dirname(dest))):
+    # the demo lives inside an existing package directory
+    target = os.path.join(wt, dest)
+    pkgdir = os.path.dirname(dest)
+else:
+    pkgdir = pkg if not dest else os.path.dirname(dest)
+    created_dir = os.path.join(wt, pkgdir)
+    shutil.rmtree(created_dir, ignore_errors=True)
+    os.makedirs(created_dir)
+    target = os.path.join(created_dir, "demo_test.go")
+ddir = created_dir or "/nonexistent-dir-to-remove"
+shutil.copy(os.path.join(out, "demo_test.go"), target)
+rc, o = run("go test -mod=mod -vet=off -count=1 ./%s/ %s" % (pkgdir, runflag))
 res["demo_clean_pass"] = rc == 0
 res["demo_clean_tail"] = o[-600:]
 rc, o = run("git apply --whitespace=nowarn _out/%s/patch.diff" % var)
@@ -26,7 +48,7 @@ res["patch_applies"] = rc == 0
 if rc == 0:
     rc, o = run("go build ./...")
     res["builds"] = rc == 0
-    rc, o = run("go test -mod=mod -vet=off -count=1 ./%s/" % pkg)
+    rc, o = run("go test -mod=mod -vet=off -count=1 ./%s/ %s" % (pkgdir, runflag))
     res["demo_mutant_fails"] = rc != 0
     res["demo_mutant_tail"] = o[-1200:]
     if "--skip-unit" not in sys.argv:
@@ -56,6 +78,8 @@ if rc == 0:
         res["unit_fail_lines"] = bad[:20]
 run("git checkout -- .")
 shutil.rmtree(ddir, ignore_errors=True)
+if not created_dir and os.path.exists(target):
+    os.remove(target)
 res["confirmed"] = bool(res.get("demo_clean_pass") and res.get("patch_applies") and res.get("builds") and res.get("demo_mutant_fails") and res.get("unit_pass", True))
 json.dump(res, open(os.path.join(out, "CONFIRM.json"), "w"), indent=1)
 print(json.dumps({k: v for k, v in res.items() if not k.endswith("_tail")}))
